@@ -2,10 +2,14 @@
    CliAccept.accept.  One verdict line per scenario:
      OK <family> <seed> <idx> states=<n> items=<n>
      REJECT <family> <seed> <idx> item=<i> line=<lineno> <what the model expected>
+     REJECT <family> <seed> <idx> monitor <name>  (a proved monitor of cli/CliMonitors.v is false on the log's
+                                                   environment labels and observations; evaluated on EVERY
+                                                   scenario, racing ones included)
      FAULT <family> <seed> <idx> <text>         (harness-side monitors)            *)
 open Common
 module M = Model.CliModel
 module A = Model.CliAccept
+module Mon = Model.CliMonitors
 module Msg = Model.Msg
 
 let hx = bytes_of_hexfield
@@ -161,6 +165,8 @@ let () =
   let obs = ref [] in
   let items = ref [] in
   let faults = ref [] in
+  let envs = ref [] in       (* environment labels of the scenario, reversed *)
+  let allobs = ref [] in     (* observations of the scenario, reversed *)
   let flush_cur () =
     (match !cur with
      | Some (f, ln) ->
@@ -177,14 +183,31 @@ let () =
     flush_cur ();
     let its = List.rev !items in
     List.iter (fun x -> Printf.printf "FAULT %s %s\n" !hdr x) (List.rev !faults);
+    (* the proved monitors (cli/CliMonitors.v), on every scenario: they read the environment labels and the
+       observations of the log, each in its own order, never their interleaving *)
+    let env = List.rev !envs and os = List.rev !allobs in
+    let mons =
+      [ ("mon_return_once", Mon.mon_return_once);
+        ("mon_ids_fresh", Mon.mon_ids_fresh);
+        ("mon_onstop_once", Mon.mon_onstop_once);
+        ("mon_close_seals", Mon.mon_close_seals) ] in
+    let nmon = List.length mons in
+    let mon_rejected = ref false in
+    List.iter (fun (name, m) ->
+        if not (m env os) then begin
+          mon_rejected := true;
+          Printf.printf "REJECT %s monitor %s\n" !hdr name
+        end) mons;
     (match !cfg with
      | _ when !policy = "race" ->
        (* racing mode has no windows and no controlled order: the log is judged by the property monitors only *)
-       Printf.printf "OK %s race-mode (monitors only)\n" !hdr
+       if not !mon_rejected then Printf.printf "OK %s skipped racing-log (monitors only) monitors=%d\n" !hdr nmon
      | None -> Printf.printf "BADLOG %s no cfg\n" !hdr
      | Some s0 ->
        (match A.accept !mask [s0] (List.map fst its) Model.Datatypes.O with
-        | A.Accepted (n, _) -> Printf.printf "OK %s states=%d items=%d\n" !hdr (int_of_nat n) (List.length its)
+        | A.Accepted (n, _) ->
+          if not !mon_rejected then
+            Printf.printf "OK %s states=%d items=%d monitors=%d\n" !hdr (int_of_nat n) (List.length its) nmon
         | A.Rejected (i, exp) ->
           let i = int_of_nat i in
           let (it, ln) = List.nth its i in
@@ -202,13 +225,21 @@ let () =
       | ["cfg"; unblock; oncancel; onnotify; oncallback] ->
         if !open_scn then judge ();   (* a scenario cut short by a worker crash: judge its prefix *)
         cfg := Some (M.init (b01 unblock) (b01 oncancel) (b01 onnotify) (b01 oncallback));
-        items := []; faults := []; cur := None; obs := []; open_scn := true; policy := ""
+        items := []; faults := []; cur := None; obs := []; envs := []; allobs := []; open_scn := true; policy := ""
       | "scenario" :: fam :: seed :: idx :: rest ->
         hdr := String.concat " " [fam; seed; idx];
         policy := (match rest with p :: _ -> p | [] -> "")
-      | ("env" | "rel" | "o" | "parked" | "snap") :: _ when !policy = "race" -> ()
-      | "env" :: _ | "rel" :: _ -> flush_cur (); cur := Some (f, ln)
-      | "o" :: rest -> obs := parse_obs rest :: !obs
+      (* a racing log: no windows, only the two sequences the monitors read (an environment line that is no label
+         of the model is no input of the monitors either) *)
+      | "env" :: rest when !policy = "race" ->
+        (match (try Some (parse_env rest) with _ -> None) with
+         | Some lb -> envs := lb :: !envs
+         | None -> ())
+      | "o" :: rest when !policy = "race" -> allobs := parse_obs rest :: !allobs
+      | ("rel" | "parked" | "snap") :: _ when !policy = "race" -> ()
+      | "env" :: rest -> flush_cur (); envs := parse_env rest :: !envs; cur := Some (f, ln)
+      | "rel" :: _ -> flush_cur (); cur := Some (f, ln)
+      | "o" :: rest -> let o = parse_obs rest in obs := o :: !obs; allobs := o :: !allobs
       | ["parked"; p] ->
         flush_cur ();
         let cnt = if p = "-" then [] else
